@@ -111,6 +111,28 @@ Example solves_after_update_use_new_model :
 Proof. exact ex_solves_after_update. Qed.
 Print Assumptions solves_after_update_use_new_model.
 
+(* --- computing ONE source-frequency slot (get_efield / get_hfield on a missing field, any
+       state, any mode, any variant) leaves the synthetic data of every other slot unchanged *)
+Theorem single_slot_recompute_frame : forall q w k i (geth : bool) s s',
+  nth_error (w_sims w) k = Some s ->
+  nth_error (w_sims (fst (step q w (k, if geth then OGetH i else OGetE i)))) k = Some s' ->
+  forall j, j <> i -> s_syn s' j = s_syn s j.
+Proof. exact single_slot_frame_proof. Qed.
+Print Assumptions single_slot_recompute_frame.
+
+(* the state "results kept, fields dropped, one slot recomputed" (4 slots) is reachable; all
+   synthetic data survive and misfit / gradient are those of a fresh simulation *)
+Example results_kept_one_slot_recomputed :
+  let w := run fixed (init_world 4 false 0) [(0, OCompute); (0, OClean CKeep); (0, OGetE 2)] in
+  (match nth_error (w_sims w) 0 with
+   | Some s => (map (s_syn s) (seq 0 4), map (s_efield s) (seq 0 4), s_computed s, s_misfit s)
+   | None => (@nil tag, @nil (option tag), false, @None tag) end)
+  = ([Syn 0 0; Syn 0 1; Syn 0 2; Syn 0 3], [None; None; Some (Efield 0 2); None], true, None)
+  /\ ask fixed w 0 QMisfit = (RVal (Misfit 0), [])
+  /\ ask fixed w 0 QGradient = (RVal (Grad 0), []).
+Proof. exact (proj2 ex_results_kept_one_slot). Qed.
+Print Assumptions results_kept_one_slot_recomputed.
+
 Example tol_trace_nonempty :
   o_trace (snd (step fixed (init_world 2 false 0) (0, OGradient))) =
   [mkSolve KF 0 TFwd false 0; mkSolve KF 1 TFwd false 0; mkSolve KB 0 TGrad false 0; mkSolve KB 1 TGrad false 0].
